@@ -257,7 +257,7 @@ def gen_modular_image(rng, opts=None):
     if rng.random() < 0.3:
         wp = [rng.randrange(32) for _ in range(7)] + [rng.randrange(16) for _ in range(4)]
     frame = {"gshift": gshift, "chans": chans, "tr": trs, "pals": pals, "tree": tree, "wp": wp,
-             "ent": (o.get("ent") if o.get("ent") is not None else rng.choice([0, 0, 1, 1, 2, 2, 3, 4]))}
+             "ent": (o.get("ent") if o.get("ent") is not None else rng.choice([0, 0, 1, 1, 2, 2, 3, 4, 5, 5, 6, 6]))}
     return img, [frame]
 
 
@@ -360,7 +360,7 @@ def gen_table_image(rng, kind=None):
         tree = ("D", 0, rng.randint(0, 1), tree, other)
     tree = relabel_clusters(tree)
     frame = {"gshift": rng.randrange(4), "chans": chans, "tr": [], "pals": [], "tree": tree, "wp": None,
-             "ent": rng.choice([0, 1, 2, 3, 4])}
+             "ent": rng.choice([0, 1, 2, 3, 4, 5, 6])}
     return img, [frame], kind
 
 
@@ -368,12 +368,12 @@ def gen_palette_image(rng):
     """palette images in the coded domain: explicit, implicit (index >= nb_colours) and delta
     (index < nb_deltas, incl. negative) entries, any delta predictor"""
     w, h = rng.choice([1, 2, 3, 5, 8, 13]), rng.choice([1, 2, 3, 6, 11])
-    bits = rng.choice([8, 8, 10, 12, 16])
+    bits = rng.choice([8, 8, 10, 12, 16, 16, 24, 25, 28, 31])
     lo, hi = 0, (1 << bits) - 1
     gray = rng.random() < 0.3
     ncol = 1 if gray else 3
     numc = 1 if gray or rng.random() < 0.25 else 3
-    nbc = rng.randint(0, 10)
+    nbc = rng.choice([rng.randint(0, 10), rng.randint(0, 10), rng.randint(11, 40)])
     nbd = rng.randint(0, nbc) if rng.random() < 0.7 else 0
     dpred = rng.randrange(14)
     mode = rng.choice(["inrange", "inrange", "implicit", "negative", "all"])
@@ -393,5 +393,5 @@ def gen_palette_image(rng):
     wp = None if rng.random() < 0.6 else [rng.randrange(32) for _ in range(7)] + [rng.randrange(16) for _ in range(4)]
     frame = {"gshift": rng.randrange(4), "chans": [pal, index_chan] + rest, "coded": True,
              "tr": [("pal", 0, numc, nbc, nbd, dpred)], "pals": [], "tree": tree, "wp": wp,
-             "ent": rng.choice([0, 1, 2, 3, 4])}
+             "ent": rng.choice([0, 1, 2, 3, 4, 5, 5, 6, 6])}
     return img, [frame], f"palette-{mode}-d{int(nbd>0)}"
